@@ -1,6 +1,7 @@
 import MpsVerif.Proofs.IterQueueInv
 import MpsVerif.Proofs.IterQueueTime
 import MpsVerif.Proofs.IterQueueLive
+import MpsVerif.Proofs.IterQueueCall
 /-!
 # C17 — IterableQueue delivers every item once and every consumer finishes
 
@@ -225,6 +226,35 @@ theorem C17_all_finish (c : Cfg) (hm : 1 ≤ c.m) (hn : 1 ≤ c.n) (s : State) (
   cases step_sound c s s' _ hs with
   | rStartOk _ hall _ => exact hall
   | rStartFail _ hall _ => exact hall
+
+/-- **A call with its own timeout answers the stop as well.**  One blocking `ResponsiveQueue` call
+    (`put/get(timeout = T)`, `T = none`: no timeout) that starts at clock 0 and cannot succeed before
+    `r`, with a stop requested at `s` (any `w`, `T`, `s`, `r`, either resolution of a request made at
+    the instant of a poll): it ends with `StopRequested` only at a clock in `[s, s + w]`, with
+    `Full/Empty` only exactly at its own timeout, successfully only at `r`; and whenever a stop was
+    requested at `s0` the call is over — one way or the other — by `s0 + w`, i.e. within one wait
+    interval, however long its own timeout is (it does end: `fuel` waits suffice once
+    `s0 + w < fuel · w`). -/
+theorem C17_timed_call_responsive (w : Nat) (T s : Option Nat) (tie : Bool) (r : Option Nat) (fuel : Nat) :
+    (∀ u, timedCall w T s tie r fuel 0 = .stop u → ∃ s0, s = some s0 ∧ s0 ≤ u ∧ u ≤ s0 + w) ∧
+    (∀ u, timedCall w T s tie r fuel 0 = .expire u → T = some u) ∧
+    (∀ u, timedCall w T s tie r fuel 0 = .ok u → r = some u) ∧
+    (∀ s0, s = some s0 → timedCall w T s tie r fuel 0 ≠ .running →
+        (timedCall w T s tie r fuel 0).time ≤ s0 + w) ∧
+    (∀ s0, s = some s0 → s0 + w < fuel * w → timedCall w T s tie r fuel 0 ≠ .running) := by
+  obtain ⟨h1, h2, h3, h4⟩ := timedCall_spec w T s tie r fuel 0 (fun _ _ => Nat.zero_le _) (fun _ _ => Nat.zero_le _)
+  refine ⟨h1, h2, h3, h4, ?_⟩
+  intro s0 hs0 hf
+  rw [hs0]
+  exact timedCall_ends w T s0 tie r fuel 0 (Nat.zero_le _) (by omega)
+
+/-- non-vacuity: interval 4, own timeout 80 (20 s), stop requested at 2: `StopRequested` at 4, not
+    `Full` at 80; with own timeout 6 and the stop at 5 the timeout wins at 6; a request made exactly
+    at a poll and not seen by it is answered one interval later -/
+example : timedCall 4 (some 80) (some 2) false none 30 0 = .stop 4 ∧
+    timedCall 4 (some 6) (some 5) false none 30 0 = .expire 6 ∧
+    timedCall 4 none (some 4) false none 30 0 = .stop 8 ∧
+    timedCall 4 none (some 4) true (some 7) 30 0 = .stop 4 := by decide
 
 /-- **Every consumer finishes — bound.**  Once all suppliers have ended, in *any* continuation
     without a `renew` action (any interleaving with stop requests, clock ticks, retries) the
